@@ -3,6 +3,8 @@ package main
 import (
 	"bytes"
 	"context"
+	"crypto/sha1"
+	"encoding/hex"
 	"fmt"
 	"os"
 	"os/exec"
@@ -44,6 +46,7 @@ type SolveOpts struct {
 	SecondaryMs int
 	AllSolvers  bool // thorough: ask every solver about every obligation
 	KeepFiles   bool
+	Only        map[string]bool // if set: decide only these obligations (and inferred invariants)
 }
 
 type SolveStats struct {
@@ -73,7 +76,36 @@ func (s *SolveStats) win(solver string) {
 	s.BySolver[solver]++
 }
 
+// solver answers are memoised on disk by (solver, timeout, script text): the same query is never sent twice.
+var solveCacheDir = ""
+
+func cacheKey(sc SolverCfg, script string, ms int) string {
+	h := sha1.New()
+	h.Write([]byte(sc.Name))
+	h.Write([]byte(fmt.Sprintf("|%d|", ms)))
+	h.Write([]byte(script))
+	return hex.EncodeToString(h.Sum(nil))
+}
+
 func runSolver(sc SolverCfg, script string, ms int, dir, tag string, wall time.Duration) (string, float64, error) {
+	var ck string
+	if solveCacheDir != "" {
+		ck = filepath.Join(solveCacheDir, cacheKey(sc, script, ms))
+		if b, err := os.ReadFile(ck); err == nil {
+			return string(b), 0, nil
+		}
+	}
+	out, sec, err := runSolverRaw(sc, script, ms, dir, tag, wall)
+	if ck != "" && err == nil {
+		tmp := ck + fmt.Sprintf(".tmp%d", os.Getpid())
+		if os.WriteFile(tmp, []byte(out), 0o644) == nil {
+			os.Rename(tmp, ck)
+		}
+	}
+	return out, sec, err
+}
+
+func runSolverRaw(sc SolverCfg, script string, ms int, dir, tag string, wall time.Duration) (string, float64, error) {
 	f := filepath.Join(dir, tag+"."+sc.Name+".smt2")
 	if err := os.WriteFile(f, []byte(sc.Head(ms)+script), 0o644); err != nil {
 		return "", 0, err
@@ -116,7 +148,30 @@ func SolveFunction(e *Enc, opts SolveOpts, stats *SolveStats) {
 	if len(e.obs) == 0 {
 		return
 	}
-	script := e.sb.String()
+	if opts.Only != nil {
+		// keep only the wanted obligations; the others are not decided in this run
+		var sel []*Obligation
+		for _, ob := range e.obs {
+			if opts.Only[ob.Name] || ob.Kind == "cand" {
+				sel = append(sel, ob)
+			} else {
+				ob.Result = "skipped"
+			}
+		}
+		if len(sel) == 0 {
+			return
+		}
+		script := subsetScript(e, sel)
+		all := e.obs
+		e.obs = sel
+		solveScript(e, script, opts, stats)
+		e.obs = all
+		return
+	}
+	solveScript(e, e.sb.String(), opts, stats)
+}
+
+func solveScript(e *Enc, script string, opts SolveOpts, stats *SolveStats) {
 	tag := sanitize(e.name)
 	if len(tag) > 80 {
 		tag = tag[:80]
@@ -337,4 +392,55 @@ func (ob *Obligation) Discharged() bool {
 		return ob.Result == "sat" || ob.Result == "unknown" || ob.Result == "timeout"
 	}
 	return ob.Result == "unsat"
+}
+
+// solveSubset decides a subset of obligations (used by Houdini): one incremental run of the
+// primary solver over a script in which only the selected obligations are checked.
+func solveSubset(e *Enc, sel []*Obligation, opts SolveOpts) {
+	script := subsetScript(e, sel)
+	tag := "h_" + sanitize(e.name)
+	if len(tag) > 80 {
+		tag = tag[:80]
+	}
+	out, _, _ := runSolver(solvers[0], script, opts.PrimaryMs, opts.WorkDir, tag, time.Duration(opts.PrimaryMs*len(sel)+5000)*time.Millisecond)
+	ans := parseAnswers(out)
+	for i, ob := range sel {
+		ob.Result = "unknown"
+		if i < len(ans) {
+			ob.Result = ans[i]
+		}
+	}
+	if !opts.KeepFiles {
+		matches, _ := filepath.Glob(filepath.Join(opts.WorkDir, tag+".*"))
+		for _, m := range matches {
+			os.Remove(m)
+		}
+	}
+}
+
+// subsetScript rebuilds the script with the push/check/pop blocks of unselected obligations removed.
+func subsetScript(e *Enc, sel []*Obligation) string {
+	want := map[*Obligation]bool{}
+	for _, ob := range sel {
+		want[ob] = true
+	}
+	script := e.sb.String()
+	var sb strings.Builder
+	pos := 0
+	for _, ob := range e.obs {
+		sb.WriteString(script[pos:ob.PrefixLen])
+		pos = ob.PrefixLen
+		if !want[ob] {
+			// skip "(push 1)\n<goal>\n(check-sat)\n(pop 1)\n"
+			block := "(push 1)\n" + ob.Goal + "\n(check-sat)\n(pop 1)\n"
+			if ob.Kind == "cover" {
+				block = "(push 1)\n(check-sat)\n(pop 1)\n"
+			}
+			if strings.HasPrefix(script[pos:], block) {
+				pos += len(block)
+			}
+		}
+	}
+	sb.WriteString(script[pos:])
+	return sb.String()
 }
